@@ -8,36 +8,34 @@ Local Open Scope R_scope.
 Definition ch_ok (p : chips_params R) : Prop := 0 < ch_mn p /\ 0 < ch_energy p /\ 0 < ch_mtarget p.
 
 (** the neutron four-vector after the boost back to the laboratory, as in [chips_final] *)
-Definition ch_boosted (p : chips_params R) (q2 phi : R) : fourvec R :=
+Definition ch_boosted (p : chips_params R) (c phi : R) : fourvec R :=
   let mn := ch_mn p in
   let mt := ch_mtarget p in
   let e_n := mn + ch_energy p in
   let p_n := calc_momentum mn (ch_energy p) in
   let cm_p := ch_cm_p p in
-  let nlv1 := FV (vscale cm_p (from_spherical (ch_cos_theta p q2) phi)) (sqrt (cm_p * cm_p + mn * mn)) in
+  let nlv1 := FV (vscale cm_p (from_spherical c phi)) (sqrt (cm_p * cm_p + mn * mn)) in
   boost (boost_vector (FV (V3 0 0 p_n) (e_n + mt))) nlv1.
 
-Lemma chips_final_run (p : chips_params R) (q2 u : R) s :
-  chips_final p q2 (u :: s) =
-  let b := ch_boosted p q2 ((twopi - 0) * u + 0) in
+Lemma chips_final_cos_run (p : chips_params R) (c u : R) s :
+  chips_final_cos p c (u :: s) =
+  let b := ch_boosted p c ((twopi - 0) * u + 0) in
   Some (Inter Scattered (fv_e b - ch_mn p)
           (rotate (min_acc (T:=R)) (make_unit_vector (fv_mom b)) (ch_dir p)) []
           (clamp_to_nonneg (ch_mn p + ch_energy p + ch_mtarget p - fv_e b - ch_mtarget p)), s).
 Proof. reflexivity. Qed.
 
 (** pure algebra: energy of the boosted neutron *)
-Lemma chips_boost_algebra (m M en pn r q2 : R) :
+Lemma chips_boost_algebra (m M en pn r c : R) :
   0 < M -> 0 < r -> 0 < pn -> 0 < en + M ->
   r * r = m * m + M * M + 2 * en * M -> pn * pn = en * en - m * m ->
-  (en + M) / r * ((m * m + en * M) / r
-                  + pn / (en + M) * (pn * M / r * (1 - 1 / 2 * q2 / (pn * M / r * (pn * M / r)))))
-  = en - q2 / (2 * M).
+  (en + M) / r * ((m * m + en * M) / r + pn / (en + M) * (pn * M / r * c))
+  = en - pn * pn * M / (r * r) * (1 - c).
 Proof.
   intros HM Hr Hpn HeM Hr2 Hpn2.
-  assert (H1 : (en + M) / r * ((m * m + en * M) / r
-                  + pn / (en + M) * (pn * M / r * (1 - 1 / 2 * q2 / (pn * M / r * (pn * M / r)))))
-             = ((en + M) * (m * m + en * M) + pn * pn * M) / (r * r) - q2 / (2 * M)) by (field; lra).
-  rewrite H1, Hr2, Hpn2.
+  assert (H1 : (en + M) / r * ((m * m + en * M) / r + pn / (en + M) * (pn * M / r * c))
+             = ((en + M) * (m * m + en * M) + pn * pn * M) / (r * r) - pn * pn * M / (r * r) * (1 - c)) by (field; lra).
+  rewrite H1. f_equal. rewrite Hr2, Hpn2.
   assert (Hs : 0 < m * m + M * M + 2 * en * M) by (rewrite <- Hr2; nra).
   field. lra.
 Qed.
@@ -79,58 +77,186 @@ Section ChipsKin.
     split; [exact E|]. rewrite E. apply Rdiv_lt_0_compat; [nra|lra].
   Qed.
 
-  (** the contract of the momentum-transfer oracle gives a valid cosine *)
-  Lemma ch_cos_range (q2 : R) : 0 <= q2 <= 4 * (ch_cm_p p * ch_cm_p p) -> -1 <= ch_cos_theta p q2 <= 1.
+  (** the contract of the momentum-transfer oracle gives a valid raw cosine; the clamp is then the identity *)
+  Lemma ch_cos_raw_range (q2 : R) : 0 <= q2 <= 4 * (ch_cm_p p * ch_cm_p p) -> -1 <= ch_cos_raw p q2 <= 1.
   Proof.
-    intros [H0 H1]. destruct ch_cm_p_eq as [_ Hc]. unfold ch_cos_theta. numR; numR.
+    intros [H0 H1]. destruct ch_cm_p_eq as [_ Hc]. unfold ch_cos_raw. numR; numR.
     set (c2 := ch_cm_p p * ch_cm_p p) in *. assert (Hc2 : 0 < c2) by (unfold c2; nra).
     assert (Hq : 0 <= 1 / 2 * q2 / c2 <= 2) by (split; [apply div_ge_c; lra | apply div_le_c; lra]).
     lra.
   Qed.
+  (** the clamped cosine is in [-1, 1] for EVERY q2 (rounding excess, even a wrong sampler) *)
+  Lemma ch_cos_theta_range (q2 : R) : -1 <= ch_cos_theta p q2 <= 1.
+  Proof.
+    unfold ch_cos_theta, nclamp. numR. destruct (Rltb_spec (ch_cos_raw p q2) (- (1))); [lra|].
+    destruct (Rltb_spec 1 (ch_cos_raw p q2)); lra.
+  Qed.
+  Lemma ch_cos_theta_in_contract (q2 : R) : 0 <= q2 <= 4 * (ch_cm_p p * ch_cm_p p) ->
+    ch_cos_theta p q2 = ch_cos_raw p q2.
+  Proof.
+    intros Hq. pose proof (ch_cos_raw_range q2 Hq). unfold ch_cos_theta, nclamp. numR.
+    destruct (Rltb_spec (ch_cos_raw p q2) (- (1))); [lra|]. destruct (Rltb_spec 1 (ch_cos_raw p q2)); [lra|reflexivity].
+  Qed.
 
-  (** E' = E_n - Q^2 / (2 M): the recoil energy is Q^2 / (2 M) *)
-  Lemma ch_boosted_energy (q2 phi : R) : fv_e (ch_boosted p q2 phi) = en - q2 / (2 * M).
+  (** facts shared by the energy and the momentum of the boosted neutron *)
+  Lemma ch_boost_facts : 0 < en + M /\
+    sqrt (1 - pn / (en + M) * (pn / (en + M))) = r / (en + M) /\
+    sqrt (ch_cm_p p * ch_cm_p p + m * m) = (m * m + en * M) / r.
+  Proof.
+    destruct ch_basic as (Hm & HM & HT & Hpn & Hr & Hpn2 & Hr2). destruct ch_cm_p_eq as [Ecm Hcm].
+    assert (HeM : 0 < en + M) by (unfold en; lra). split; [exact HeM|]. split.
+    - assert (Hg : 1 - pn / (en + M) * (pn / (en + M)) = r / (en + M) * (r / (en + M))).
+      { replace (r / (en + M) * (r / (en + M))) with (r * r / ((en + M) * (en + M))) by (field; lra).
+        rewrite Hr2. replace (pn / (en + M) * (pn / (en + M))) with (pn * pn / ((en + M) * (en + M))) by (field; lra).
+        rewrite Hpn2. field. lra. }
+      rewrite Hg. apply sqrt_square. apply Rlt_le, Rdiv_lt_0_compat; lra.
+    - assert (Hst : ch_cm_p p * ch_cm_p p + m * m = (m * m + en * M) / r * ((m * m + en * M) / r)).
+      { rewrite Ecm. replace ((m * m + en * M) / r * ((m * m + en * M) / r))
+          with ((m * m + en * M) * (m * m + en * M) / (r * r)) by (field; lra).
+        replace (pn * M / r * (pn * M / r) + m * m) with ((pn * pn * (M * M) + m * m * (r * r)) / (r * r)) by (field; lra).
+        rewrite Hr2, Hpn2. f_equal. ring. }
+      rewrite Hst. apply sqrt_square. apply Rlt_le, Rdiv_lt_0_compat; [unfold en; nra|lra].
+  Qed.
+
+  (** E' = E_n - (p^2 M / s) (1 - cos theta), for every cosine and azimuth *)
+  Lemma ch_boosted_energy_c (c phi : R) : fv_e (ch_boosted p c phi) = en - pn * pn * M / (r * r) * (1 - c).
   Proof.
     destruct ch_basic as (Hm & HM & HT & Hpn & Hr & Hpn2 & Hr2).
-    destruct ch_cm_p_eq as [Ecm Hcm].
+    destruct ch_cm_p_eq as [Ecm Hcm]. destruct ch_boost_facts as (HeM & Hg & Hst).
     unfold ch_boosted. fold m M T en. rewrite ch_momentum_eq. cbv zeta.
     unfold boost, boost_vector, vscale, dot, from_spherical. cbn [fv_e fv_mom vx vy vz]. numR.
-    set (c := ch_cos_theta p q2). set (k := 1 / (en + M)).
-    assert (HeM : 0 < en + M) by (unfold en; lra).
+    set (k := 1 / (en + M)).
     assert (Hvsq : k * pn * (k * pn) + (k * 0 * (k * 0) + (k * 0 * (k * 0) + 0)) = pn / (en + M) * (pn / (en + M)))
       by (unfold k; field; lra).
-    rewrite Hvsq.
-    assert (Hg : 1 - pn / (en + M) * (pn / (en + M)) = r / (en + M) * (r / (en + M))).
-    { replace (r / (en + M) * (r / (en + M))) with (r * r / ((en + M) * (en + M))) by (field; lra).
-      rewrite Hr2. replace (pn / (en + M) * (pn / (en + M))) with (pn * pn / ((en + M) * (en + M))) by (field; lra).
-      rewrite Hpn2. field. lra. }
-    rewrite Hg. rewrite sqrt_square by (apply Rlt_le, Rdiv_lt_0_compat; lra).
-    assert (Hst : ch_cm_p p * ch_cm_p p + m * m = (m * m + en * M) / r * ((m * m + en * M) / r)).
-    { rewrite Ecm. replace ((m * m + en * M) / r * ((m * m + en * M) / r))
-        with ((m * m + en * M) * (m * m + en * M) / (r * r)) by (field; lra).
-      replace (pn * M / r * (pn * M / r) + m * m) with ((pn * pn * (M * M) + m * m * (r * r)) / (r * r)) by (field; lra).
-      rewrite Hr2, Hpn2. f_equal. ring. }
-    rewrite Hst. rewrite sqrt_square by (apply Rlt_le, Rdiv_lt_0_compat; [unfold en; nra|lra]).
+    rewrite Hvsq, Hg, Hst.
     replace (k * pn * (ch_cm_p p * c) + (k * 0 * (ch_cm_p p * (sqrt (1 - c * c) * sin phi)) +
              (k * 0 * (ch_cm_p p * (sqrt (1 - c * c) * cos phi)) + 0)))
       with (pn / (en + M) * (ch_cm_p p * c)) by (unfold k; field; lra).
-    unfold c, ch_cos_theta. numR; numR. rewrite Ecm.
-    replace (1 / (r / (en + M))) with ((en + M) / r) by (field; lra).
+    rewrite Ecm. replace (1 / (r / (en + M))) with ((en + M) / r) by (field; lra).
     apply chips_boost_algebra; assumption.
   Qed.
 
-  (** the largest recoil 4 p_cm^2 / (2 M) never exceeds the incident kinetic energy *)
+  (** within the contract: E' = E_n - Q^2 / (2 M): the recoil energy is Q^2 / (2 M) *)
+  Lemma ch_boosted_energy (q2 phi : R) : fv_e (ch_boosted p (ch_cos_raw p q2) phi) = en - q2 / (2 * M).
+  Proof.
+    destruct ch_basic as (Hm & HM & HT & Hpn & Hr & Hpn2 & Hr2). destruct ch_cm_p_eq as [Ecm Hcm].
+    rewrite ch_boosted_energy_c. unfold ch_cos_raw. numR; numR. rewrite Ecm. field. repeat split; lra.
+  Qed.
+
+  (** the largest recoil 2 p^2 M / s = 4 p_cm^2 / (2 M) never exceeds the incident kinetic energy; strictly below
+      it unless the target has exactly the neutron's mass *)
+  Lemma ch_max_recoil_c : 2 * (pn * pn * M / (r * r)) <= T /\ (m <> M -> 2 * (pn * pn * M / (r * r)) < T).
+  Proof.
+    destruct ch_basic as (Hm & HM & HT & Hpn & Hr & Hpn2 & Hr2).
+    assert (Hs : 0 < m * m + M * M + 2 * en * M) by (unfold en; nra).
+    replace (2 * (pn * pn * M / (r * r))) with (2 * (pn * pn) * M / (r * r)) by (field; lra).
+    rewrite Hr2, Hpn2. split.
+    - apply div_le_c; [exact Hs|]. unfold en. pose proof (Rle_0_sqr (m - M)) as Hq. unfold Rsqr in Hq. nra.
+    - intros Hne. apply div_lt_c; [exact Hs|]. unfold en.
+      assert (Hq : 0 < (m - M) * (m - M)) by (destruct (Rtotal_order m M) as [H|[H|H]]; [nra|contradiction|nra]). nra.
+  Qed.
   Lemma ch_max_recoil : 4 * (ch_cm_p p * ch_cm_p p) / (2 * M) <= T.
   Proof.
     destruct ch_basic as (Hm & HM & HT & Hpn & Hr & Hpn2 & Hr2). destruct ch_cm_p_eq as [Ecm _].
-    rewrite Ecm. replace (4 * (pn * M / r * (pn * M / r)) / (2 * M)) with (2 * (pn * pn) * M / (r * r)) by (field; lra).
-    rewrite Hr2, Hpn2. apply div_le_c; [unfold en; nra|].
-    unfold en. pose proof (Rle_0_sqr (m - M)) as Hq. unfold Rsqr in Hq. nra.
+    destruct ch_max_recoil_c as [H _]. rewrite Ecm.
+    replace (4 * (pn * M / r * (pn * M / r)) / (2 * M)) with (2 * (pn * pn * M / (r * r))) by (field; lra). exact H.
+  Qed.
+
+  (** |p'|^2 > 0 for every cosine in [-1, 1] when the target mass differs from the neutron mass *)
+  Lemma ch_boosted_mom_pos (c phi : R) : -1 <= c <= 1 -> m <> M ->
+    0 < dot (fv_mom (ch_boosted p c phi)) (fv_mom (ch_boosted p c phi)).
+  Proof.
+    intros Hc Hne. destruct ch_basic as (Hm & HM & HT & Hpn & Hr & Hpn2 & Hr2).
+    destruct ch_cm_p_eq as [Ecm Hcm]. destruct ch_boost_facts as (HeM & Hg & Hst).
+    rewrite dot_R. unfold ch_boosted. fold m M T en. rewrite ch_momentum_eq. cbv zeta.
+    unfold boost, boost_vector, vscale, axpy, dot, from_spherical. cbn [fv_e fv_mom vx vy vz]. numR.
+    set (k := 1 / (en + M)).
+    assert (Hvsq : k * pn * (k * pn) + (k * 0 * (k * 0) + (k * 0 * (k * 0) + 0)) = pn / (en + M) * (pn / (en + M)))
+      by (unfold k; field; lra).
+    rewrite Hvsq, Hg, Hst.
+    replace (k * pn * (ch_cm_p p * c) + (k * 0 * (ch_cm_p p * (sqrt (1 - c * c) * sin phi)) +
+             (k * 0 * (ch_cm_p p * (sqrt (1 - c * c) * cos phi)) + 0)))
+      with (pn / (en + M) * (ch_cm_p p * c)) by (unfold k; field; lra).
+    assert (Hb : Rltb 0 (pn / (en + M) * (pn / (en + M))) = true).
+    { apply Rltb_true. assert (0 < pn / (en + M)) by (apply Rdiv_lt_0_compat; lra). nra. }
+    rewrite Hb.
+    set (st := sqrt (1 - c * c)). assert (Hst2 : st * st = 1 - c * c) by (apply sqrt_sqrt; nra).
+    assert (Hst0 : 0 <= st) by apply sqrt_pos.
+    set (lam := (1 / (r / (en + M)) - 1) * (pn / (en + M) * (ch_cm_p p * c)) / (pn / (en + M) * (pn / (en + M)))
+                + 1 / (r / (en + M)) * ((m * m + en * M) / r)).
+    (* z component in closed form *)
+    assert (Hz : lam * (k * pn) + ch_cm_p p * c = pn * (M * c * (en + M) + m * m + en * M) / (r * r)).
+    { unfold lam, k. rewrite Ecm. field. repeat split; lra. }
+    replace (lam * (k * 0) + ch_cm_p p * (st * cos phi)) with (ch_cm_p p * st * cos phi) by (unfold k; field; lra).
+    replace (lam * (k * 0) + ch_cm_p p * (st * sin phi)) with (ch_cm_p p * st * sin phi) by (unfold k; field; lra).
+    rewrite Hz. set (z := pn * (M * c * (en + M) + m * m + en * M) / (r * r)).
+    assert (Hxy : ch_cm_p p * st * cos phi * (ch_cm_p p * st * cos phi) + ch_cm_p p * st * sin phi * (ch_cm_p p * st * sin phi)
+                  = ch_cm_p p * ch_cm_p p * (1 - c * c)).
+    { pose proof (sin2_cos2 phi) as Hsc. unfold Rsqr in Hsc.
+      replace (ch_cm_p p * st * cos phi * (ch_cm_p p * st * cos phi) + ch_cm_p p * st * sin phi * (ch_cm_p p * st * sin phi))
+        with (ch_cm_p p * ch_cm_p p * (st * st) * (sin phi * sin phi + cos phi * cos phi)) by ring.
+      rewrite Hsc, Hst2. ring. }
+    rewrite Hxy.
+    assert (Hcm2 : 0 < ch_cm_p p * ch_cm_p p) by nra.
+    destruct (Rlt_dec (c * c) 1) as [Hlt|Hge].
+    - assert (0 < ch_cm_p p * ch_cm_p p * (1 - c * c)) by (apply Rmult_lt_0_compat; lra).
+      pose proof (Rle_0_sqr z) as Hq. unfold Rsqr in Hq. lra.
+    - assert (Hc1 : c = 1 \/ c = -1) by (destruct (Rtotal_order c 0) as [H|[H|H]]; [right|exfalso|left]; nra).
+      assert (Hz0 : z <> 0).
+      { unfold z. assert (Hrr : 0 < r * r) by nra.
+        destruct Hc1 as [-> | ->].
+        - assert (0 < pn * (M * 1 * (en + M) + m * m + en * M) / (r * r)).
+          { apply Rdiv_lt_0_compat; [|lra]. apply Rmult_lt_0_compat; [lra|unfold en; nra]. } lra.
+        - replace (M * -1 * (en + M) + m * m + en * M) with ((m - M) * (m + M)) by ring.
+          intro Hz0. apply Rmult_eq_compat_r with (r := r * r) in Hz0.
+          replace (pn * ((m - M) * (m + M)) / (r * r) * (r * r)) with (pn * ((m - M) * (m + M))) in Hz0 by (field; lra).
+          rewrite Rmult_0_l in Hz0. apply Rmult_integral in Hz0 as [Hz0|Hz0]; [lra|].
+          apply Rmult_integral in Hz0 as [Hz0|Hz0]; [apply Hne; lra|lra]. }
+      assert (0 < z * z) by (destruct (Rtotal_order z 0) as [H|[H|H]]; [nra|contradiction|nra]).
+      assert (0 <= ch_cm_p p * ch_cm_p p * (1 - c * c)) by (apply Rmult_le_pos; nra). lra.
   Qed.
 End ChipsKin.
 
-(** energy conservation and validity of the energies, for every Q^2 within the oracle's contract: the
-    clamp on the recoil energy never fires, T = E_out + E_recoil with E_recoil = Q^2 / (2 M) *)
+(** ** the repaired interactor: valid final state for EVERY momentum transfer the sampler can return (including a
+    rounding excess over 4 p_cm^2, or any other value: the clamp bounds the cosine) *)
+Theorem chips_outputs_valid (p : chips_params R) (q2 : R) s r s' :
+  ch_ok p -> ch_mn p <> ch_mtarget p -> unitv (ch_dir p) -> chips_final p q2 s = Some (r, s') ->
+  i_action r = Scattered /\ i_secs r = [] /\ -1 <= ch_cos_theta p q2 <= 1 /\
+  0 <= i_deposit r /\ 0 < i_energy r <= ch_energy p /\ unitv (i_dir r) /\
+  ch_energy p = i_energy r + sec_energy_sum (i_secs r) + i_deposit r /\ exists u, s = u :: s'.
+Proof.
+  intros Hok Hne Hd E. destruct s as [|u s0]; [discriminate|]. unfold chips_final in E.
+  rewrite chips_final_cos_run in E. cbv zeta in E.
+  pose proof (ch_cos_theta_range p q2) as Hc. set (c := ch_cos_theta p q2) in *.
+  set (b := ch_boosted p c ((twopi - 0) * u + 0)) in E.
+  pose proof (ch_boosted_energy_c p Hok c ((twopi - 0) * u + 0)) as Hb. fold b in Hb.
+  pose proof (ch_boosted_mom_pos p Hok c ((twopi - 0) * u + 0) Hc Hne) as Hp. fold b in Hp.
+  destruct (ch_max_recoil_c p Hok) as [Hmax Hmaxs]. specialize (Hmaxs Hne).
+  clearbody b. injection E as Hr Hs. subst r s'. cbn [i_action i_secs i_deposit i_energy i_dir].
+  rewrite Hb. destruct Hok as (Hm & HT & HM).
+  set (K := sqrt (ch_energy p * ch_energy p + 2 * ch_mn p * ch_energy p) *
+            sqrt (ch_energy p * ch_energy p + 2 * ch_mn p * ch_energy p) * ch_mtarget p /
+            (sqrt (ch_mn p * ch_mn p + ch_mtarget p * ch_mtarget p + 2 * (ch_mn p + ch_energy p) * ch_mtarget p) *
+             sqrt (ch_mn p * ch_mn p + ch_mtarget p * ch_mtarget p + 2 * (ch_mn p + ch_energy p) * ch_mtarget p))) in *.
+  assert (HK : 0 <= K).
+  { unfold K. apply div_ge_c.
+    - assert (0 < sqrt (ch_mn p * ch_mn p + ch_mtarget p * ch_mtarget p + 2 * (ch_mn p + ch_energy p) * ch_mtarget p))
+        by (apply sqrt_lt_R0; nra). nra.
+    - rewrite Rmult_0_l. apply Rmult_le_pos; [|lra].
+      pose proof (sqrt_pos (ch_energy p * ch_energy p + 2 * ch_mn p * ch_energy p)). nra. }
+  set (rec := K * (1 - c)) in *.
+  assert (Hrec : 0 <= rec < ch_energy p) by (unfold rec; split; nra).
+  assert (Hcl : clamp_to_nonneg (ch_mn p + ch_energy p + ch_mtarget p - (ch_mn p + ch_energy p - rec) - ch_mtarget p) = rec).
+  { unfold clamp_to_nonneg. numR.
+    replace (ch_mn p + ch_energy p + ch_mtarget p - (ch_mn p + ch_energy p - rec) - ch_mtarget p) with rec by ring.
+    destruct (Rltb_spec rec 0); [lra|reflexivity]. }
+  rewrite Hcl. unfold sec_energy_sum. cbn [map nsum]. numR.
+  repeat split; try reflexivity; try lra.
+  - apply rotate_unit; [apply make_unit_vector_unit; exact Hp|exact Hd].
+  - exists u. reflexivity.
+Qed.
+
+(** within the sampler's contract the clamp is the identity and the recoil energy is Q^2 / (2 M) *)
 Theorem chips_energy_conserved (p : chips_params R) (q2 : R) s r s' :
   ch_ok p -> 0 <= q2 <= 4 * (ch_cm_p p * ch_cm_p p) -> chips_final p q2 s = Some (r, s') ->
   i_action r = Scattered /\ i_secs r = [] /\
@@ -139,12 +265,13 @@ Theorem chips_energy_conserved (p : chips_params R) (q2 : R) s r s' :
   0 <= i_deposit r /\ 0 <= i_energy r <= ch_energy p /\ -1 <= ch_cos_theta p q2 <= 1 /\
   exists u, s = u :: s'.
 Proof.
-  intros Hok Hq E. destruct s as [|u s0]; [discriminate|]. rewrite chips_final_run in E. cbv zeta in E.
-  set (b := ch_boosted p q2 ((twopi - 0) * u + 0)) in E.
+  intros Hok Hq E. destruct s as [|u s0]; [discriminate|]. unfold chips_final in E.
+  rewrite (ch_cos_theta_in_contract p Hok q2 Hq) in E. rewrite chips_final_cos_run in E. cbv zeta in E.
+  set (b := ch_boosted p (ch_cos_raw p q2) ((twopi - 0) * u + 0)) in E.
   assert (Hb : fv_e b = ch_mn p + ch_energy p - q2 / (2 * ch_mtarget p)) by (apply ch_boosted_energy; exact Hok).
   clearbody b. injection E as Hr Hs. subst r s'. cbn [i_action i_secs i_deposit i_energy].
   rewrite Hb.
-  pose proof (ch_max_recoil p Hok) as Hmax. destruct Hok as (Hm & HT & HM).
+  pose proof (ch_max_recoil p Hok) as Hmax. pose proof (ch_cos_theta_range p q2) as Hcr. destruct Hok as (Hm & HT & HM).
   set (rec := q2 / (2 * ch_mtarget p)).
   assert (Hrec : 0 <= rec <= ch_energy p).
   { unfold rec. split; [apply div_ge_c; lra|].
@@ -157,30 +284,39 @@ Proof.
     destruct (Rltb_spec rec 0); [lra|reflexivity]. }
   rewrite Hcl. unfold sec_energy_sum. cbn [map nsum]. numR.
   repeat split; try reflexivity; try lra.
-  - apply (ch_cos_range p (conj Hm (conj HT HM))); assumption.
-  - apply (ch_cos_range p (conj Hm (conj HT HM))); assumption.
-  - exists u. reflexivity.
+  exists u. reflexivity.
 Qed.
 
-(** outside the contract the clamp hides an energy excess: a (hypothetical) Q^2 < 0 gives E_out > T with zero
-    deposit, i.e. the interactor relies on the sampler's clamp(q_sq, 0, max) *)
-Theorem chips_negative_q2_breaks_energy (p : chips_params R) (q2 u : R) s :
-  ch_ok p -> q2 < 0 ->
-  exists r, chips_final p q2 (u :: s) = Some (r, s) /\ i_deposit r = 0 /\ ch_energy p < i_energy r.
+(** BEFORE the repair (no clamp): a momentum transfer exceeding 4 p_cm^2 (as rounding produces on the real sampler:
+    formerly KNOWN finding chips-costheta-exceeds-1-by-rounding-nan-direction) gives cos(theta) < -1, i.e. the square
+    root of a negative number in from_spherical *)
+Theorem chips_costheta_before_repair_refuted (p : chips_params R) (q2 : R) :
+  ch_ok p -> 4 * (ch_cm_p p * ch_cm_p p) < q2 ->
+  ch_cos_raw p q2 < -1 /\ 1 - ch_cos_raw p q2 * ch_cos_raw p q2 < 0 /\ ch_cos_theta p q2 = -1.
 Proof.
-  intros Hok Hq. rewrite chips_final_run. cbv zeta. eexists; split; [reflexivity|].
-  cbn [i_deposit i_energy]. rewrite (ch_boosted_energy p Hok). destruct Hok as (Hm & HT & HM).
-  assert (Hrec : q2 / (2 * ch_mtarget p) < 0).
-  { apply div_lt_c; lra. }
-  split.
-  - unfold clamp_to_nonneg. numR.
-    match goal with |- context [Rltb ?a 0] => assert (Hb : Rltb a 0 = true) by (apply Rltb_true; lra) end.
-    rewrite Hb. reflexivity.
-  - lra.
+  intros Hok Hq. destruct (ch_cm_p_eq p Hok) as [_ Hc].
+  assert (Hraw : ch_cos_raw p q2 < -1).
+  { unfold ch_cos_raw. numR; numR. set (c2 := ch_cm_p p * ch_cm_p p) in *. assert (Hc2 : 0 < c2) by (unfold c2; nra).
+    assert (2 < 1 / 2 * q2 / c2) by (apply div_gt_c; lra). lra. }
+  split; [exact Hraw|]. split; [nra|].
+  unfold ch_cos_theta, nclamp. numR. destruct (Rltb_spec (ch_cos_raw p q2) (- (1))); [reflexivity|lra].
 Qed.
 
-Example chips_nonvacuous : ch_ok (CH 939 10 (V3 0 0 1) 3727) /\ 0 <= 0 <= 4 * (ch_cm_p (CH 939 10 (V3 0 0 1) 3727) * ch_cm_p (CH 939 10 (V3 0 0 1) 3727)).
+(** the interactor still relies on the sampler for Q^2 >= 0 only through the clamp: a negative Q^2 is clamped to
+    cos(theta) = 1 (no energy transfer) *)
+Theorem chips_negative_q2_is_forward (p : chips_params R) (q2 : R) : ch_ok p -> q2 < 0 -> ch_cos_theta p q2 = 1.
+Proof.
+  intros Hok Hq. destruct (ch_cm_p_eq p Hok) as [_ Hc].
+  assert (Hraw : 1 < ch_cos_raw p q2).
+  { unfold ch_cos_raw. numR; numR. set (c2 := ch_cm_p p * ch_cm_p p) in *. assert (Hc2 : 0 < c2) by (unfold c2; nra).
+    assert (1 / 2 * q2 / c2 < 0) by (apply div_lt_c; lra). lra. }
+  unfold ch_cos_theta, nclamp. numR. destruct (Rltb_spec (ch_cos_raw p q2) (- (1))); [lra|].
+  destruct (Rltb_spec 1 (ch_cos_raw p q2)); [reflexivity|lra].
+Qed.
+
+Example chips_nonvacuous : ch_ok (CH 939 10 (V3 0 0 1) 3727) /\ (939 : R) <> 3727 /\
+  0 <= 0 <= 4 * (ch_cm_p (CH 939 10 (V3 0 0 1) 3727) * ch_cm_p (CH 939 10 (V3 0 0 1) 3727)).
 Proof.
   assert (Hok : ch_ok (CH 939 10 (V3 0 0 1) 3727)) by (unfold ch_ok; cbn; lra).
-  split; [exact Hok|]. destruct (ch_cm_p_eq _ Hok) as [_ H]. nra.
+  split; [exact Hok|]. split; [lra|]. destruct (ch_cm_p_eq _ Hok) as [_ H]. nra.
 Qed.
